@@ -379,6 +379,18 @@ class Verifier:
         return extern_exc_is_subclass(o.cls, name)
 
     # ------------------------------------------------------------------
+    def _retry_z3(self, s):
+        """z3's sequence / quantifier reasoning is unstable on identical input (seconds on one run, a timeout on
+        the next): an `unknown` is retried on fresh solver instances with other seeds before it is reported."""
+        for seed in (7, 23, 101):
+            s2 = z3.Solver()
+            s2.set('random_seed', seed)
+            s2.set('timeout', self.ob_timeout_ms)
+            s2.add(s.assertions())
+            if s2.check() == z3.unsat:
+                return True
+        return False
+
     def skolemize(self, I, g):
         sk = []
         return _skolemize(I, g, sk), sk
@@ -440,6 +452,9 @@ class Verifier:
                     I.heap = cur
             except Exception as e:      # pragma: no cover
                 ob.witness = {'error': str(e)}
+        elif self._retry_z3(s):
+            ob.result, ob.backend = 'proved', 'z3'
+            ob.note = 'proved on a retry with another random seed (sequence / quantifier instability of z3)'
         else:
             smt = s.to_smt2()
             res = run_cvc5(smt, self.ob_timeout_ms)
